@@ -58,7 +58,10 @@ def run(spec, ctx):
         nops = r.choice([1, 1, 2, 2, 3, 4, 5])
         asts = []
         for _i in range(nops):
-            if r.random() < 0.75:
+            k = r.random()
+            if k < 0.12:
+                asts.append(["q", "^", r.choice([[["child", [["wild"]]]], [["child", [["index", 0]]]] + gen.gen_segments(r, names, max_segs=2), [["child", [["filter", fg.logical()]]]]])])
+            elif k < 0.75:
                 asts.append(gen.gen_std_query(r, doc, max_segs=3))
             else:
                 asts.append(["q", "$", [[r.choice(["child", "desc"]), [["filter", fg.logical()]]]]])
